@@ -170,6 +170,19 @@ pub fn run(ctx: &Ctx) -> i32 {
     for (n, f) in sized_files() {
         add(n, &f);
     }
+    // frame header fields at their extremes: duration 0 / 65535 in every frame, in the last frame only
+    for (bn, base) in [("b1", gen::b1()), ("b2", gen::b2()), ("d1", gen::d1(&Fmt::Rgba))] {
+        for (tag, dur, last_only) in [("zero", 0u16, false), ("zero-last", 0, true), ("max", 65535, false), ("max-last", 65535, true)] {
+            let mut f = base.clone();
+            let n = f.frames.len();
+            for (i, fr) in f.frames.iter_mut().enumerate() {
+                if !last_only || i + 1 == n {
+                    fr.duration = dur;
+                }
+            }
+            add(format!("{}-duration-{}", bn, tag), &f);
+        }
+    }
     // a file whose chunks carry trailing bytes and whose frames use each count style
     {
         let mut f = gen::b1();
